@@ -196,7 +196,20 @@ def run_compare(rep, seen, st, maxlen):
                 st["cases"] += 1
                 st["evals"] += 1
                 if form == "lists":
-                    r = observe(compare_pos_in_iterables, list(a), list(b))
+                    # the same two list objects are compared twice: a pure comparison gives the same answer and
+                    # leaves its arguments alone; and a list is always a permutation of itself
+                    la, lb = list(a), list(b)
+                    r = observe(compare_pos_in_iterables, la, lb)
+                    r2 = observe(compare_pos_in_iterables, la, lb)
+                    same_obj = observe(compare_pos_in_iterables, la, la) if a == b else ("ok", True)
+                    if r2 != r or la != list(a) or lb != list(b) or same_obj != ("ok", True):
+                        m = fail("not-a-pure-comparison", "compare_pos_in_iterables",
+                                 "x=%r; y=%r: compare(x, y) -> %r, again -> %r, arguments afterwards %r %r, compare(x, x) -> %r" % (
+                                     list(a), list(b), r, r2, la, lb, same_obj), expected=exp)
+                        violate(rep, seen, m, {"part": "compare", "a": list(a), "b": list(b), "form": "lists-twice"},
+                                10 * (len(a) + len(b)) + sum(a) + sum(b),
+                                lambda: "from windpyutils.generic import compare_pos_in_iterables\nx, y = %r, %r\n"
+                                        "print(compare_pos_in_iterables(x, y), compare_pos_in_iterables(x, y), x, y)" % (list(a), list(b)))
                 else:
                     r = observe(compare_pos_in_iterables, iter(a), iter(b))
                 if r[0] != "ok" or r[1] is not exp:
@@ -286,6 +299,9 @@ def batcher_iter_case(n, bs, shape):
         data, ref, tup = list(base), base, False
     elif shape == "generator":
         data, ref, tup = (x for x in base), base, False
+    elif shape == "tuple2lists":
+        second = ["s%d" % i for i in range(n)]
+        data, ref, tup = (list(base), list(second)), (base, second), True
     else:
         second = ["s%d" % i for i in range(n)]
         data, ref, tup = (list(base), (x for x in second)), (base, second), True
@@ -298,13 +314,26 @@ def batcher_iter_case(n, bs, shape):
         raise fail("iteration-raises", "BatcherIter", "list(BatcherIter(n=%d %s, %d)) -> %r" % (n, shape, bs, r))
     # a yielded batch must not be mutated afterwards (it is compared after the whole iteration)
     check_batches("BatcherIter", r[1], ref, bs, tup)
+    if shape in ("list", "tuple2lists"):
+        # re-iterable input: every pass over the same BatcherIter gives the same batches, also a pass started
+        # while another one is under way
+        it1 = iter(b)
+        first = observe(lambda: list(itertools.islice(it1, 1)))
+        r2 = observe(lambda: list(itertools.islice(iter(b), n + 2)))
+        rest = observe(lambda: list(itertools.islice(it1, n + 2)))
+        if r2[0] != "ok" or first[0] != "ok" or rest[0] != "ok":
+            raise fail("iteration-raises", "BatcherIter", "second pass over BatcherIter(n=%d %s, %d) -> %r / %r / %r" % (
+                n, shape, bs, first, r2, rest))
+        if r2[1] != r[1] or first[1] + rest[1] != r[1]:
+            raise fail("second-pass-differs", "BatcherIter", "BatcherIter(n=%d %s, %d): first pass %r, a second pass %r, "
+                       "a pass interleaved with it %r" % (n, shape, bs, r[1], r2[1], first[1] + rest[1]))
 
 
 def run_batchers(rep, seen, st, nmax, bsmax):
     for n in range(nmax + 1):
         for bs in range(1, bsmax + 1):
             for cls, fn, shapes in (("Batcher", batcher_case, ("list", "range", "str", "tuple2")),
-                                    ("BatcherIter", batcher_iter_case, ("list", "generator", "tuple2"))):
+                                    ("BatcherIter", batcher_iter_case, ("list", "generator", "tuple2", "tuple2lists"))):
                 for shape in shapes:
                     st["cases"] += 1
                     st["evals"] += (n + bs - 1) // bs + 3
